@@ -135,6 +135,29 @@ def check(rep):
                 fails.append(("schedule_%d" % len(fails), {"kind": "input", "what": "call %d of the schedule, %s(track %d, sample %d), returns a different result than a fresh reader" % (i, c[0], c[1], c[2]),
                                                           "in_schedule": got[3], "fresh": want, "schedule": calls[:i + 1], "case": name, "file": data.hex()}))
                 break
+    # a stream fault in the middle of a call sequence ("including calls that fail"): every call other than the one the fault hits returns what it
+    # returns without the fault — nothing cached or positioned by the failed call may leak into later calls
+    fstats = 0
+    for name, data in [f for f in files if f[0].startswith(("gen", "truncated"))][:3 if quick else 8]:
+        (b, _), = readcheck.run_both([{"data": data}], profile, want_model=False, revisit=False)
+        if b.get("open") != "ok":
+            continue
+        ks = list(range(b.get("ops_open", 0), b.get("ops", 0)))
+        if quick and len(ks) > 150:
+            ks = sorted(rng.sample(ks, 150))
+        fres2 = readcheck.run_both([{"data": data, "fail": k} for k in ks], profile, want_model=False, revisit=False)
+        for k, (fi, _) in zip(ks, fres2):
+            fstats += 1
+            if not fi.get("fired") or fi.get("open") != "ok":
+                continue
+            for x, y in zip(fi.get("calls", []), b.get("calls", [])):
+                if x != y and not (x[3] == "io" or (isinstance(x[3], dict) and x[3].get("r") == "io")):
+                    fails.append(("after_fault_%d" % len(fails), {"kind": "input", "what": "with the %d-th stream call failing, %s(track %d, sample %d) — a call the fault did not hit — returns a different result "
+                                                                  "than without the fault" % (k, x[0], x[1], x[2]), "with_fault": x[3], "without": y[3], "fault_index": k, "case": name, "file": data.hex()}))
+                    break
+            if len(fails) > 3:
+                break
+    stats["fault_points"] = fstats
     # model vs implementation under a schedule: the model's default call list IS a schedule; compare it through readcheck on the same files
     mres = readcheck.run_both([{"data": d} for _, d in files], profile, want_model=True, revisit=False)
     for (name, d), (impl, model) in zip(files, mres):
